@@ -18,7 +18,8 @@ Print Assumptions C02_recv_accepted_verified.
 
 (** An accepted acknowledgement: this chain still stores, under p's triple, exactly sha256(abi_pack p); a client is
     stored for p's DESTINATION chain and verified exactly (ack path arguments, sha256(ack bytes)) at the message's
-    proof height.  (sha256 never returns the empty string: bytes.Equal(nil, []) would hold.) *)
+    proof height.  (sha256 never returns the empty string: bytes.Equal(nil, []) would hold — the hypothesis is
+    necessary for the faithful model: Refuted/C02_shaempty.v.) *)
 Theorem C02_ack_accepted_verified : forall P, (forall x, sha256 P x <> []) -> forall env s m cb1 cb2 cb3 s',
   exec P env s (AAck m cb1 cb2 cb3) = Ok s' -> ack_verified P env s m.
 Proof. exact ack_accepted_verified. Qed.
@@ -39,6 +40,23 @@ Theorem C02_unverified_ack_rejected : forall P, (forall x, sha256 P x <> []) -> 
   ~ ack_verified P env s m -> step P s (env, AAck m cb1 cb2 cb3) = (s, false).
 Proof. exact unverified_ack_rejected. Qed.
 Print Assumptions C02_unverified_ack_rejected.
+
+(** The stateless stage in front of the handlers (types/msgs.go ValidateBasic, run by BaseApp before any handler): a
+    delivered receive / acknowledgement that is accepted has a non-zero proof height, a signer that is a bech32
+    account address, packet bytes that decode WITHOUT error to a packet passing Packet.ValidateBasic, and (for an
+    acknowledgement) non-empty acknowledgement bytes; everything else is rejected without a state change. *)
+Theorem C02_accepted_passed_basic : forall P s env a,
+  snd (step P s (env, a)) = true -> msg_basic P a = true /\ exec P env s a = Ok (fst (step P s (env, a))).
+Proof.
+  intros P s env a H. unfold step in *. cbn [fst snd] in *.
+  destruct (deliver P env s a) as [s'| |] eqn:D; cbn in H; try discriminate.
+  split; [exact (deliver_basic _ _ _ _ _ D) | exact (deliver_ok _ _ _ _ _ D)].
+Qed.
+Print Assumptions C02_accepted_passed_basic.
+
+Theorem C02_not_basic_rejected : forall P s env a, msg_basic P a = false -> step P s (env, a) = (s, false).
+Proof. intros P s env a H. unfold step, deliver. cbn [fst snd]. rewrite H. reflexivity. Qed.
+Print Assumptions C02_not_basic_rejected.
 
 (** Corollary (altered messages): if the client does not verify the commitment RECOMPUTED from the altered
     message (altered packet fields change the path arguments and/or sha256(abi_pack p); an altered proof or height
